@@ -517,6 +517,11 @@ def align_variable_names_with_convention(
     declared_names = {
         name for node in core.walk(ast_tree, (ast.Global, ast.Nonlocal)) for name in node.names
     }
+    # The same goes for names that are (also) bound by imports and except clauses
+    declared_names |= tracing.get_imported_names(ast_tree)
+    declared_names |= {
+        handler.name for handler in core.walk(ast_tree, ast.ExceptHandler) if handler.name
+    }
     # A name that is bound in several ways (e.g. by a def and by an assignment) is still one
     # variable: if its bindings call for different new names, it keeps the name it has.
     name_substitutes = collections.defaultdict(set)
